@@ -138,6 +138,8 @@ pub struct Stats {
 	/// merged states whose alternative history was re-expanded / edges compared (state identity validation)
 	pub merge_checked_states: u64,
 	pub merge_checked_edges: u64,
+	/// of these: successors equal in everything but the byte layout of log records
+	pub merge_layout_only: u64,
 }
 
 impl Stats {
@@ -145,6 +147,7 @@ impl Stats {
 		self.executions += o.executions;
 		self.merge_checked_states += o.merge_checked_states;
 		self.merge_checked_edges += o.merge_checked_edges;
+		self.merge_layout_only += o.merge_layout_only;
 		self.states += o.states;
 		self.transitions += o.transitions;
 		self.noop_edges += o.noop_edges;
@@ -180,6 +183,14 @@ pub struct Found {
 /// Hash of all file bytes in the database directory (sparse aware; all-zero pages are skipped
 /// so that allocation differences do not matter).
 pub fn hash_dir(dir: &Path) -> u64 {
+	hash_dir_opt(dir, false)
+}
+
+/// `skip_log_content`: log files enter with name and length only. The byte layout of a log record depends on the
+/// iteration order of std hash maps inside the crate (which column's changes come first), and that order depends on
+/// how many hash maps the thread has created before: two histories reaching the same state may write the same
+/// record in two layouts. Tables and indexes do not depend on it.
+pub fn hash_dir_opt(dir: &Path, skip_log_content: bool) -> u64 {
 	use std::os::unix::io::AsRawFd;
 	let mut names: Vec<String> = std::fs::read_dir(dir)
 		.map(|rd| rd.filter_map(|e| e.ok()).map(|e| e.file_name().to_string_lossy().into_owned()).collect())
@@ -199,6 +210,9 @@ pub fn hash_dir(dir: &Path) -> u64 {
 		let len = f.metadata().map(|m| m.len()).unwrap_or(0);
 		h = fnv(n.as_bytes(), h);
 		h = fnv(&len.to_le_bytes(), h);
+		if skip_log_content && n.starts_with("log") {
+			continue
+		}
 		let fd = f.as_raw_fd();
 		let mut pos: i64 = 0;
 		loop {
@@ -240,6 +254,8 @@ pub fn hash_dir(dir: &Path) -> u64 {
 
 pub struct EdgeOut {
 	pub identity: u128,
+	/// the parts the identity is made of: digest (2 halves), file bytes, model, harness extras (diagnosis only)
+	pub parts: [u64; 6],
 	pub model: u64,
 	pub obs: u64,
 	pub multi_stage: bool,
@@ -390,6 +406,7 @@ fn run_edge_inner(scn: &Scenario, hist: &[Ev], ev: Option<&Ev>, mut ex: Exec) ->
 			(d.cleanup_queue > 0) as u32;
 		Ok(Some(EdgeOut {
 			identity: id.finish(),
+			parts: [(d.hash >> 64) as u64, d.hash as u64, files, ex.model.hash(), extra, if scn.merge_check { hash_dir_opt(&ex.dir, true) } else { 0 }],
 			model: ex.model.hash(),
 			obs: fnv(obs.as_bytes(), 0xcbf29ce484222325),
 			multi_stage: stages_busy >= 2,
@@ -495,8 +512,9 @@ pub fn graph_search(scn: &Scenario, budget: &Budget) -> (Stats, Option<Found>) {
 	let root_dir = workdir(&format!("{}-root", sanitize(&scn.name)));
 	// root
 	let mut root = Node { id: 0, hist: vec![], rejects: 0, commits: 0, reopens: 0, pm_mask: 0xff };
-	let mut succ: HashMap<u128, HashMap<String, u128>> = HashMap::new();
+	let mut succ: HashMap<u128, HashMap<String, (u128, [u64; 6])>> = HashMap::new();
 	let mut alts: HashMap<u128, Node> = HashMap::new();
+	let mut reps: HashMap<u128, Vec<Ev>> = HashMap::new();
 	match run_edge(scn, &root_dir, &[], None) {
 		EdgeRes::Ok(o) => {
 			seen.insert(o.identity);
@@ -581,7 +599,7 @@ pub fn graph_search(scn: &Scenario, budget: &Budget) -> (Stats, Option<Found>) {
 					stats.crash.merge(&o.crash);
 					stats.faults.merge(&o.faults);
 					if scn.merge_check {
-						succ.entry(frontier[*ni].id).or_default().insert(format!("{:?}", ev), o.identity);
+						succ.entry(frontier[*ni].id).or_default().insert(format!("{:?}", ev), (o.identity, o.parts));
 					}
 					if o.rejected && frontier[*ni].rejects >= scn.max_rejects {
 						// the rejected commit was executed and judged; its successor state is beyond the bound
@@ -597,6 +615,9 @@ pub fn graph_search(scn: &Scenario, budget: &Budget) -> (Stats, Option<Found>) {
 						let p = &frontier[*ni];
 						let mut hist = p.hist.clone();
 						hist.push(ev.clone());
+						if scn.merge_check {
+							reps.insert(o.identity, hist.clone());
+						}
 						next_frontier.push(Node {
 							id: o.identity,
 							hist,
@@ -646,7 +667,9 @@ pub fn graph_search(scn: &Scenario, budget: &Budget) -> (Stats, Option<Found>) {
 	// both is executed once more and must lead to the state the representative's edge led to. A difference means
 	// the identity (digest + file bytes + model + ...) misses something the implementation's behaviour depends on:
 	// a defect of the machinery, never a verdict about the property.
-	if scn.merge_check && stats.complete {
+	// (not in crash / fault scenarios: there the recorder and the prefix list are part of the execution; the same
+	// state spaces are validated by the plain scenarios of the same families)
+	if scn.merge_check && stats.complete && scn.crash.is_none() && !scn.faults {
 		let mut plain = scn.clone();
 		plain.crash = None;
 		plain.faults = false;
@@ -670,29 +693,51 @@ pub fn graph_search(scn: &Scenario, budget: &Budget) -> (Stats, Option<Found>) {
 				stats.merge_checked_states += 1;
 			}
 		}
-		let items = crate::par::par_map(work.len(), threads, "merge", |i| {
-			let (_, hist, ev) = &work[i];
-			let r = run_edge(&plain, &worker_dir(), hist, Some(ev));
-			(encode_edge(&r), false)
-		});
-		for (i, it) in items.into_iter().enumerate() {
-			let (id, hist, ev) = &work[i];
-			let r = match it {
-				crate::par::Item::Done(b) => decode_edge(&b),
-				_ => continue,
-			};
-			stats.executions += 1;
-			if let EdgeRes::Ok(o) = r {
-				stats.merge_checked_edges += 1;
-				let want = succ[id][&format!("{:?}", ev)];
-				if o.identity != want {
-					let mut h = scn.init.clone();
-					h.extend(hist.iter().cloned());
-					h.push(ev.clone());
-					cleanup_scratch();
-					return (stats, Some(Found { scenario: scn.name.clone(), cfg: scn.cfg.clone(), history: h, fail: Fail::new("machinery", format!("state identity is not sound: this history was merged with another one reaching the same identity {:032x}, but event {} leads to a different state from here ({:032x}) than from the representative ({:032x})", id, ev.short(), o.identity, want)) }))
+		// in slices, so that the wall budget also bounds this phase (what was compared is reported)
+		let mut done = 0usize;
+		while done < work.len() {
+			if budget.exceeded() {
+				break
+			}
+			let slice = &work[done..(done + 4000).min(work.len())];
+			let items = crate::par::par_map(slice.len(), threads, "merge", |i| {
+				let (_, hist, ev) = &slice[i];
+				let r = run_edge(&plain, &worker_dir(), hist, Some(ev));
+				(encode_edge(&r), false)
+			});
+			for (i, it) in items.into_iter().enumerate() {
+				let (id, hist, ev) = &slice[i];
+				let r = match it {
+					crate::par::Item::Done(b) => decode_edge(&b),
+					_ => continue,
+				};
+				stats.executions += 1;
+				if let EdgeRes::Ok(o) = r {
+					stats.merge_checked_edges += 1;
+					let (want, wparts) = succ[id][&format!("{:?}", ev)];
+					// same successor, or the same up to the byte layout of log records (see `hash_dir_opt`)
+					let same_but_layout = [0usize, 1, 3, 4, 5].iter().all(|i| o.parts[*i] == wparts[*i]);
+					if o.identity != want && same_but_layout {
+						stats.merge_layout_only += 1;
+					}
+					if o.identity != want && !same_but_layout {
+						let mut h = scn.init.clone();
+						h.extend(hist.iter().cloned());
+						h.push(ev.clone());
+						// diagnosis: which part of the identity differs (the representative's edge is executed once more)
+						let rep = reps.get(id).cloned().unwrap_or_default();
+						let names = ["in-memory digest (high)", "in-memory digest (low)", "file bytes", "model", "harness extras (pipeline model, iterator, locks)", "file bytes without log contents"];
+						let diff = match run_edge(&plain, &worker_dir(), &rep, Some(ev)) {
+							EdgeRes::Ok(r) => format!("representative history: {} ; differing parts: {:?}", hist_short(&rep), (0..6).filter(|i| r.parts[*i] != o.parts[*i]).map(|i| names[i]).collect::<Vec<_>>()),
+							_ => String::new(),
+						};
+						eprintln!("identity mismatch: {}", diff);
+						cleanup_scratch();
+						return (stats, Some(Found { scenario: scn.name.clone(), cfg: scn.cfg.clone(), history: h, fail: Fail::new("machinery", format!("state identity is not sound: this history was merged with another one reaching the same identity {:032x}, but event {} leads to a different state from here ({:032x}) than from the representative ({:032x})", id, ev.short(), o.identity, want)) }))
+					}
 				}
 			}
+			done += slice.len();
 		}
 	}
 	cleanup_scratch();
@@ -850,7 +895,7 @@ pub fn encode_edge(r: &EdgeRes) -> Vec<u8> {
 	let j = match r {
 		EdgeRes::Skip => json!({"t": "skip"}),
 		EdgeRes::Fail(f) => json!({"t": "fail", "kind": f.kind, "msg": f.msg}),
-		EdgeRes::Ok(o) => json!({"t": "ok", "id": format!("{:032x}", o.identity), "model": o.model, "obs": o.obs,
+		EdgeRes::Ok(o) => json!({"t": "ok", "id": format!("{:032x}", o.identity), "parts": o.parts.iter().map(|p| format!("{:016x}", p)).collect::<Vec<_>>(), "model": o.model, "obs": o.obs,
 			"ms": o.multi_stage, "pm": o.pm_steps, "rej": o.rejected, "mask": o.pm_mask, "known": o.known,
 			"cp": o.crash.crash_points, "ci": o.crash.images, "cd": o.crash.distinct_images, "cr": o.crash.recoveries, "cn": o.crash.nested_recoveries,
 			"fr": o.faults.runs, "fh": o.faults.faults_hit, "fe": o.faults.errors_reported, "fc": o.faults.commits_refused, "fo": o.faults.reopened, "fm": o.faults.max_ops_in_step, "fp": o.faults.power_loss_images,
@@ -866,6 +911,13 @@ pub fn decode_edge(b: &[u8]) -> EdgeRes {
 		"fail" => EdgeRes::Fail(Fail::new(j["kind"].as_str().unwrap(), j["msg"].as_str().unwrap().to_string())),
 		_ => EdgeRes::Ok(EdgeOut {
 			identity: u128::from_str_radix(j["id"].as_str().unwrap(), 16).unwrap(),
+			parts: {
+				let mut p = [0u64; 6];
+				for (i, x) in j["parts"].as_array().map(|a| a.clone()).unwrap_or_default().iter().enumerate().take(6) {
+					p[i] = u64::from_str_radix(x.as_str().unwrap_or("0"), 16).unwrap_or(0);
+				}
+				p
+			},
 			model: j["model"].as_u64().unwrap(),
 			obs: j["obs"].as_u64().unwrap(),
 			multi_stage: j["ms"].as_bool().unwrap(),
